@@ -116,7 +116,20 @@ def merge_rules(R, pfx="C07"):
         from rules import union_sites
         ext = sorted(union_sites(F, tx, loc)[0]) if loc else []      # `set.extend(local)` or `for t in local { set.insert(t) }`
         oku = bool(ext) and bool(loc) and bool(vals) and op_local(vals[0][2]) in ta.closure(loc)
-        if not oku:
+        if oku:
+            # … and the union is stored whole: nothing between the united set and the stored value drops elements (`.take(n)`, `.filter(..)`)
+            from rules import receiver_chain_calls, DROPPING_ADAPTORS
+            g_ = cfg_of(tx)
+            setl = set()
+            for bid in ext:
+                recv = op_local(g_.term(bid)["args"][0])
+                setl |= {recv} | set(ta.ref_of.get(recv, ()))
+            chain = receiver_chain_calls(tx, op_local(vals[0][2]), stop=setl)
+            cut_ = [n for n in chain if any(n.endswith(x) or (x + "<") in n for x in DROPPING_ADAPTORS)]
+            if cut_:
+                oku = False
+                R.viol(pfx + ".tx.union", "union-truncated:%s" % cut_[0].split("::")[-1], "the united transaction set is cut down (%s) before it is stored: a transaction that was already stored can disappear" % cut_[0], tx, tx.lines[0])
+        if not oku and not any(v.rule == pfx + ".tx.union" for v in R.violations):
             R.viol(pfx + ".tx.union", "local-union", "the stored set is not the union (BTreeSet::extend) of validated input and get_local_transactions", tx, tx.lines[0])
         R.inst(pfx + ".tx.union", "K6 flows-to", "stored = validated ∪ local (BTreeSet, order/duplication independent)", len(ext), oku)
         TXV = R.body(pfx + ".tx.sig", TX + "::verify")
@@ -246,6 +259,10 @@ def merge_rules(R, pfx="C07"):
 
 
 def run(R):
+    # "the node's stored value is …": what the validated write hands to the store must reach the disk and be marked only then — the
+    # write-path rules of C01 are evaluated under this property too
+    import props.C01 as _C01
+    R.import_rules("C01", _C01.run, ["C01.mark-after-write", "C01.mark.", "C01.arm.always", "C01.failed-write"], "C07.persist")
     F = R.F
     merge_rules(R, "C07")
     # (3b) a client update of a mutable kind is acknowledged only with the verdict of its validate-and-store function
